@@ -340,6 +340,28 @@ theorem resonator_z_exp_real_poles (f bw : ℝ)
   rw [Complex.norm_real, Real.norm_eq_abs, abs_of_pos (by linarith)]
   exact hgt
 
+/-- **C13.5g** (why the finding has no repair inside the design family) in that regime NO filter
+`g·(1 - z⁻²) / (1 - 2R·ct·z⁻¹ + R²z⁻²)` with poles of radius `R` (complex or double: `ct² ≤ 1`) and
+the documented gain `g = (1-R²)/2` (peak 0 dB) has unit gain at `f`: radius `e^{-bw/2}` and "peak at
+the requested frequency" exclude each other when `cos f·(1+R²) > 2R`. -/
+theorem resonator_z_exp_no_repair (f R ct : ℝ) (hR0 : 0 < R) (hR1 : R < 1) (hct : ct ^ 2 ≤ 1)
+    (h0 : 0 < f) (h1 : f < Real.pi) (hc : 2 * R < Real.cos f * (1 + R ^ 2)) :
+    magSq (C13.mk [(1 - R ^ 2) * (1 / 2), 0, -((1 - R ^ 2) * (1 / 2))] [1, -(2 * R * ct), R ^ 2]) f < 1 := by
+  rw [twoZero_magSq]
+  have hf := cos_sq_lt_one_of_mem f h0 h1
+  have hct1 : ct ≤ 1 := by
+    by_contra hcon
+    push Not at hcon
+    nlinarith
+  have hpos : 0 < (1 + R ^ 2) * Real.cos f - 2 * R * ct := by nlinarith [mul_nonneg hR0.le (by linarith : (0:ℝ) ≤ 1 - ct)]
+  have h2 : 0 < (1 - R ^ 2) ^ 2 * (1 - Real.cos f ^ 2) := by
+    have : 0 < 1 - R ^ 2 := by nlinarith
+    have : 0 < 1 - Real.cos f ^ 2 := by linarith
+    positivity
+  unfold resDenSq
+  rw [div_lt_one (by nlinarith [sq_nonneg ((1 + R ^ 2) * Real.cos f - 2 * R * ct)])]
+  nlinarith [mul_pos hpos hpos]
+
 /-! ### 6. comb filters -/
 
 /-- **C13.6a** `comb.fb(D, α)` run by the generated filter loop (C04 model: `evalIR (compile …)`)
